@@ -45,7 +45,29 @@ def plain(p):
     return mk('plain_timed', ints('v', n), ['-2 ** 40 <= v%d <= 2 ** 40' % i for i in range(n)], body)
 
 
-FAMILIES = {'prog': prog, 'plain': plain}
+def plain_take(p):
+    """plain observables: take(k) / first() complete the stream at the k-th item, so a completion-triggered consumer behind them emits at that item
+    (not one item later, and not only at the end of the source)"""
+    import rxsci as rs
+    k, consumer, n = p['k'], p['consumer'], p['n']
+
+    def cons():
+        return {'last': [rs.ops.last()], 'to_list': [rs.data.to_list(), rs.ops.map(C._lsum)], 'count_r': [rs.ops.count(reduce=True)], 'sum_r': [rs.ops.scan(lambda a, i: a + i, seed=0, reduce=True)]}[consumer]
+
+    def body(a):
+        items = list(a)
+        head = [rs.ops.first()] if k == 'first' else [rs.ops.take(k)]
+        kk = 1 if k == 'first' else k
+        got = D.run_timed(items, head + cons(), mux=False)
+        pre = items[:kk]
+        t = kk - 1 if len(items) >= kk else len(items)
+        val = {'last': lambda l: l[-1], 'to_list': C._lsum, 'count_r': len, 'sum_r': sum}[consumer](pre)
+        exp = [(t, val)]
+        return got == exp or fail(pipeline='%s > %s (plain observable)' % (k, consumer), items=items, observed=got, expected=exp)
+    return mk('plain_take', ints('v', n), ['-2**40 <= v%d <= 2**40' % i for i in range(n)], body)
+
+
+FAMILIES = {'prog': prog, 'plain': plain, 'plain_take': plain_take}
 
 INNERS = [[['scan_add_r']], [['scan_add']], [['to_list_sum']], [['batch2_sum']], [['take1'], ['last']], [['filter_even'], ['count_r']], [['first']]]
 
@@ -91,5 +113,11 @@ def obligations(tier, seed):
         if k == 'progress':
             continue
         obs.append(Ob(PROP, 'plain', dict(desc=[[k]], n=3 if q else 4), budget=120 if q else 600, bound=dict(items=3 if q else 4, pipeline=k)))
+    for k in (1, 2, 'first'):
+        for consumer in ('last', 'to_list', 'count_r', 'sum_r'):
+            for n in ((3,) if q else (2, 3, 4)):
+                if k != 'first' and n < k:
+                    continue
+                obs.append(Ob(PROP, 'plain_take', dict(k=k, consumer=consumer, n=n), budget=120 if q else 600, group='plain take/first + completion-triggered consumer', bound=dict(items=n, take=k, consumer=consumer)))
     obs.append(Ob(PROP, 'prog', dict(desc=[['roll', 3, 2, [['filter_even'], ['scan_add_r']]]], n=4, _twin='reach'), budget=60, expect='refute'))
     return obs
